@@ -372,6 +372,74 @@ func main() {
 		return switches[i].method < switches[j].method
 	})
 
+	// API surface: the interfaces of cardinality.go and the method sets of every type of the package
+	type iface struct {
+		name     string
+		embedded []string
+		methods  []string
+	}
+	var ifaces []iface
+	implMethods := map[string][]string{}
+	entries, err := os.ReadDir(dir)
+	if err != nil {
+		fmt.Fprintln(os.Stderr, "c13extract:", err)
+		os.Exit(1)
+	}
+	for _, ent := range entries {
+		if ent.IsDir() || !strings.HasSuffix(ent.Name(), ".go") || strings.HasSuffix(ent.Name(), "_test.go") {
+			continue
+		}
+		pf, err := parser.ParseFile(fset, filepath.Join(dir, ent.Name()), nil, 0)
+		if err != nil {
+			fmt.Fprintln(os.Stderr, "c13extract:", err)
+			os.Exit(1)
+		}
+		for _, d := range pf.Decls {
+			switch x := d.(type) {
+			case *ast.GenDecl:
+				for _, sp := range x.Specs {
+					ts, ok := sp.(*ast.TypeSpec)
+					if !ok {
+						continue
+					}
+					it, ok := ts.Type.(*ast.InterfaceType)
+					if !ok {
+						continue
+					}
+					f := iface{name: ts.Name.Name}
+					for _, m := range it.Methods.List {
+						if len(m.Names) == 0 {
+							e := m.Type
+							if ix, ok := e.(*ast.IndexExpr); ok {
+								e = ix.X
+							}
+							f.embedded = append(f.embedded, exprString(fset, e))
+							continue
+						}
+						for _, n := range m.Names {
+							f.methods = append(f.methods, n.Name)
+						}
+					}
+					sort.Strings(f.methods)
+					ifaces = append(ifaces, f)
+				}
+			case *ast.FuncDecl:
+				if x.Recv == nil {
+					continue
+				}
+				typ, _ := recvName(fset, x)
+				implMethods[typ] = append(implMethods[typ], x.Name.Name)
+			}
+		}
+	}
+	sort.Slice(ifaces, func(i, j int) bool { return ifaces[i].name < ifaces[j].name })
+	var implTypes []string
+	for t := range implMethods {
+		implTypes = append(implTypes, t)
+		sort.Strings(implMethods[t])
+	}
+	sort.Strings(implTypes)
+
 	var b strings.Builder
 	b.WriteString("/- GENERATED by tools/extract/c13 from cardinality/lock.go, roaring32.go, roaring64.go — do not edit; regenerated on every run. -/\n")
 	b.WriteString("import Dawgs.Model.C13Facts\nnamespace Dawgs.Generated.C13\nopen Dawgs.C13.Facts\n\n")
@@ -411,6 +479,22 @@ func main() {
 		fmt.Fprintf(&b, "  { file := %s, recv := %s, method := %s, cases := %s, hasDefault := %s, switches := %d,\n    calls := [%s], selfMutationInsideEach := [%s] }%s\n",
 			lean(s.file), lean(s.recv), lean(s.method), leanList(s.cases), leanBool(s.hasDefault), s.count,
 			strings.Join(calls, ", "), strings.Join(muts, ", "), sep)
+	}
+	b.WriteString("]\n\ndef interfaces : List ApiInterface := [\n")
+	for i, f := range ifaces {
+		sep := ","
+		if i == len(ifaces)-1 {
+			sep = ""
+		}
+		fmt.Fprintf(&b, "  { name := %s, embedded := %s, methods := %s }%s\n", lean(f.name), leanList(f.embedded), leanList(f.methods), sep)
+	}
+	b.WriteString("]\n\ndef implMethods : List (String × List String) := [\n")
+	for i, t := range implTypes {
+		sep := ","
+		if i == len(implTypes)-1 {
+			sep = ""
+		}
+		fmt.Fprintf(&b, "  (%s, %s)%s\n", lean(t), leanList(implMethods[t]), sep)
 	}
 	b.WriteString("]\n\nend Dawgs.Generated.C13\n")
 	if *out == "" {
